@@ -18,7 +18,7 @@ ASSUMPTIONS = [
     "1-4 forwarding threads behind the real link-service dispatch; the name hash is abstract in the model (coq/Fw/World.v) and read from the implementation (HashNameToFwThread of every universe name and prefix); go1.26 testing/synctest virtual time",
 ]
 TRUSTED = ["translators/fw/consts.py + harness TestConsts (values reported by the compiled implementation: hook constants, config defaults, behavioural probes; reference fallback with a note)",
-           "translators/fw/scope/main.go (go/ast, structural interpretation of the scope-setting statements; a constructor not understood keeps the committed reference rule with a note, the real-constructor harness decides)", "Coq kernel 8.16.1", "Coq extraction + OCaml 4.13.1", "runner/Fw/driver.ml", "harness/fwcore generator and recording faces",
+           "translators/fw/scope_table.py + harness TestScope (scope table observed from the real transport constructors; reference rows with a note where the host cannot exercise one); translators/fw/scope/main.go is a go/ast cross-check producing notes only", "Coq kernel 8.16.1", "Coq extraction + OCaml 4.13.1", "runner/Fw/driver.ml", "harness/fwcore generator and recording faces",
            "verif hooks fw/fw/zz_verif_fw.go, fw/table/zz_verif_fw.go, fw/face/zz_verif_fw.go, std/utils/priority_queue/zz_verif_fw.go", "go1.26 toolchain (synctest)"]
 
 RULE = ("one evaluation = one generated history (1-4 forwarding threads; setup of 2-6 faces of mixed scope/link type, FIB, strategy choice, CS flags; then 20-45 events: Interests, Data, "
@@ -132,22 +132,13 @@ def run(R, prop, extra_assumptions=()):
     if rc != 0:
         R.notes.append("translators/fw/consts.py: " + out.strip()[-200:] + " (committed GenConsts.v kept)")
         incomplete.append("GenConsts.v")
-    # translate 2: scope-setting statements of the transport constructors and defn.URI.Scope() -> coq/Fw/GenScope.v (go/ast, structural)
-    rc, out = vlib.sh([vlib.GO, "run", os.path.join(vlib.VERIF, "translators", "fw", "scope", "main.go"), vlib.REPO,
-                       os.path.join(vlib.COQ, "Fw", "GenScope.reference"), os.path.join(vlib.COQ, "Fw", "GenScope.v")],
-                      env=vlib.goenv(), timeout=300, cwd=vlib.VERIF)
-    notes_of(out)
-    if rc != 0:
-        R.notes.append("translators/fw/scope could not read the tree (" + out.strip()[-200:] + "); committed GenScope.v kept; the scope harness (real constructors) decides")
-        incomplete.append("GenScope.v")
     if incomplete:
         R.coverage["translation_incomplete"] = incomplete
-    R.coverage["translated"] = ("coq/Fw/GenConsts.v from the compiled implementation (hook fw.VerifConsts, core.DefaultConfig, behavioural probes in harness TestConsts); "
-                                "coq/Fw/GenScope.v from fw/face/*-transport.go and fw/defn/uri.go (go/ast, structural)")
+    R.coverage["translated"] = "coq/Fw/GenConsts.v from the compiled implementation (hook fw.VerifConsts, core.DefaultConfig, behavioural probes in harness TestConsts)"
     if not R.prove("Fw"):
         # a theorem no longer checks: still build the proof-free model files the runner is extracted from, so that the
         # oracle can look for a concrete failing input
-        vlib.coq_make("Fw", targets="GenConsts.vo Model.vo Spec.vo World.vo ScopeDefs.vo GenScope.vo ScopeModel.vo")
+        vlib.coq_make("Fw", targets="GenConsts.vo Model.vo Spec.vo World.vo")
     if not R.quick:
         R.coqchk("Fw", ["Fw.Props_" + prop])
     ok, exe, log = vlib.extract_build("Fw")
@@ -235,7 +226,9 @@ def run(R, prop, extra_assumptions=()):
 
 
 def scope_classification(R, exe, kinds):
-    """C09, face-scope classification: the scope the real transport constructors assign vs. the specification and the translated model"""
+    """C09, face-scope classification (family coq/FwScope, kept apart from coq/Fw): the scope the real transport constructors assign.
+    GenScope.v is generated from these observations; the classification theorem is proved over the observed table; the go/ast reading
+    of the constructors is a cross-check whose disagreement is a note."""
     h = os.path.join(R.work, "h.test")
     tr = os.path.join(R.work, "trace-scope")
     env = vlib.goenv(); env.update(VERIF_OUT=tr)
@@ -245,22 +238,53 @@ def scope_classification(R, exe, kinds):
         return
     lines = open(tr, errors="replace").read().split("\n")
     rows = [l for l in lines if l.startswith("scope ")]
-    rc, out = runner_on(exe, tr, "C09")
+    # cross-check input: what the go/ast reading of the constructors predicts (never an alarm)
+    astf = os.path.join(R.work, "scope-ast")
+    rc, out = vlib.sh([vlib.GO, "run", os.path.join(vlib.VERIF, "translators", "fw", "scope", "main.go"), vlib.REPO],
+                      env=vlib.goenv(), timeout=300, cwd=vlib.VERIF)
+    if rc == 0:
+        open(astf, "w").write(out)
+    else:
+        astf = "-"
+        R.notes.append("translator: go/ast cross-check of the scope statements could not read the tree; the observed table is used")
+    rc, out = vlib.sh([sys.executable, os.path.join(vlib.VERIF, "translators", "fw", "scope_table.py"), tr,
+                       os.path.join(vlib.COQ, "FwScope", "GenScope.reference"), astf, os.path.join(vlib.COQ, "FwScope", "GenScope.v")], timeout=120)
+    inc = []
+    for l in out.split("\n"):
+        if l.startswith("note: "):
+            R.notes.append(l[6:]); inc.append(l[6:].split(";")[0])
+    if inc:
+        R.coverage.setdefault("translation_incomplete", []).extend(inc)
+    if rc != 0:
+        R.proof_problems.append("translators/fw/scope_table.py failed: " + out.strip()[-300:])
+    # prove the classification theorems over the observed table (separate family: cannot affect C01/C02)
+    proved = R.prove("FwScope", props_pid="C09")
+    if not R.quick and proved:
+        R.coqchk("FwScope", ["FwScope.Props_C09"])
+    if not proved:
+        vlib.coq_make("FwScope", targets="GenScope.vo ScopeModel.vo")
+    ok, sexe, log = vlib.extract_build("FwScope")
+    if not ok:
+        R.proof_problems.append("extraction/OCaml build of the FwScope model failed")
+        R.log(log[-1500:])
+        return
+    rc, out = vlib.sh([sexe], stdin=open(tr, errors="replace").read(), timeout=300)
     for l in out.split("\n"):
         if l.startswith("ORACLE C09 scope"):
             p = l.split(" ", 5)
             R.oracle_failure(p[4], p[5].lstrip("| ") if len(p) > 5 else "", dict(trace="scope", rows=[r for r in rows if r.split(" ")[4] == p[4].split(":")[1]][:12],
                              replay_hint="go1.26 test -tags verif -run TestScope ./harness/fwcore  (calls the real fw/face constructors)"))
-        elif l.startswith("DIVERGE scope"):
-            R.divergence("face-scope classification: translated model and constructor disagree: " + l[:300], dict(trace="scope", line=l[:600]))
+    if "SCOPES" not in out:
+        R.proof_problems.append("scope runner did not finish: " + out[-200:])
     if len([r for r in rows if r.startswith("scope 0 ")]) < 6:
         R.proof_problems.append("the scope harness produced too few rows for MakeUnicastTCPTransport")
     kinds["scope-rows"] = len(rows)
     for c in sorted(set(r.split(" ")[4] for r in rows)):
         kinds["scope:" + c] = len([r for r in rows if r.split(" ")[4] == c])
     R.coverage["scope_rule"] = ("face-scope classification: every exported transport constructor of fw/face is called for real (outgoing TCP without dialing, accepted TCP / "
-                                "WebSocket / Unix over in-process connections on loopback and on this host's own non-loopback addresses, UDP by connecting a datagram socket) "
-                                "and the assigned scope compared with Scope.spec_local and with the model translated from the source (GenScope.v)")
+                                "WebSocket / Unix over in-process connections on loopback and on this host's own non-loopback addresses, UDP by connecting a datagram socket); "
+                                "coq/FwScope/GenScope.v is generated from the observed scopes and the classification theorem proved over that table; the go/ast reading of the "
+                                "constructors is a cross-check (notes only)")
     R.add_cases(len(rows), len(set(rows)), rows[:2])
 
 
